@@ -536,4 +536,8 @@ theorem callees_as_expected : Facts.Generated.c03_callees = Expected.callees := 
 theorem callees_assumed_fresh :
     Expected.assumedFresh.all (fun n => Expected.callees.any (fun r => r.2.1 = n && r.2.2 = "fresh")) = true := by decide
 
+/-- the copy constructors of rel/ and the reference fields each leaves shared with the value it copies are the reviewed ones:
+a new lazily filled pointer/map/sync field that a `newBody`-style constructor does not reset changes its row -/
+theorem copyCtors_as_expected : Facts.Generated.c03_copyCtors = Expected.copyCtors := by decide
+
 end Arrai.C03.Theorems
